@@ -68,3 +68,14 @@ Lemma kill_torn_refuted_l :
     /\ r_pages (recover Kill (at_pos os i n)) (1, 2) = None          (* second page: not yet *)
     /\ r_pages (recover Kill (at_pos os i 0)) (1, 1) = Some 5.       (* acknowledged image *)
 Proof. exists w_torn, 4%nat, 4%nat. vm_compute. repeat split; auto. Qed.
+
+(* class 5: table id of a user table = id of a system table (database closed before its first
+   CREATE TABLE) and turdb_catalog/ listed after root/: the frames of table 1 are replayed into
+   the system table's file; after a power loss the acknowledged INSERT into table 1 is gone
+   (its root page exists only in those frames), while without the collision it survives *)
+Lemma power_id_collision_refuted_l :
+  exists os i, wf_run init os = true /\ existsb is_api_ckpt os = false /\ in_txn (run init (firstn i os)) = false
+    /\ vol (run init (firstn i os)) (1, 1) = Some 5
+    /\ r_pages (recover_sh [1] Power (run init (firstn i os))) (1, 1) = None
+    /\ r_pages (recover Power (run init (firstn i os))) (1, 1) = Some 5.
+Proof. exists w_catalog, 2%nat. vm_compute. repeat split; auto. Qed.
